@@ -212,6 +212,10 @@ pub fn tree_walker(
             // A symlink given as a source is copied as a link, not
             // also descended into, unless we're dereferencing.
             .follow_root_links(config.dereference)
+            // When dereferencing, directories reached through links
+            // are copied with their contents; loops are reported as
+            // errors by the walker.
+            .follow_links(config.dereference)
             .into_iter()
             .filter_entry(|e| ignore_filter(e, &gitignore))
         {
